@@ -72,7 +72,9 @@ class Hooks(L.Life):
         self.keep = []
 
     def package(self, w, p):
-        self.pkgs.append((p.package_type.name, [id(o) for o in p._orders], p._market_version, p))
+        # what the execution layer works on is the package's public view at hand-over (`orders` leaves out orders
+        # marked VIOLATION), not the list the package was built from
+        self.pkgs.append((p.package_type.name, [id(o) for o in p.orders], p._market_version, p))
         self.c("packages")
         self.c("clause:C02.c")
         limit = type(p).order_limit(p.package_type)
@@ -108,12 +110,14 @@ class Hooks(L.Life):
             return
         before = self.pre[0]
         self.pre = None
-        k = {"P": "place", "C": "cancel", "U": "update", "R": "replace"}[act[0]]
+        k = {"P": "place", "PA": "place", "C": "cancel", "U": "update", "R": "replace"}[act[0]]
         forced = (act[0] == "P" and act[1].get("force")) or (act[0] in ("C", "U") and len(act) > 3 and act[3]) or (act[0] == "R" and len(act) > 4 and act[4])
         spy_delta = sum(s.calls for s in self.spies) - sum(self.spy_before)
         st_before = before[0]
         if out is True:
-            self.accepted.append((id(o), {"P": "PLACE", "C": "CANCEL", "U": "UPDATE", "R": "REPLACE"}[act[0]], bool(forced)))
+            self.accepted.append((id(o), {"P": "PLACE", "PA": "PLACE", "C": "CANCEL", "U": "UPDATE", "R": "REPLACE"}[act[0]], bool(forced)))
+            if act[0] == "PA":
+                self.c("accepted_after_refusal")
             self.c("accepted_requests")
             self.c("clause:C02.e")
             if forced:
@@ -135,7 +139,7 @@ class Hooks(L.Life):
         who = L._viol_control(o) if out is False else "OrderUpdateError"
         if out is not False and isinstance(out, str):
             who = out.split(":")[1]
-        if act[0] == "P":
+        if act[0] in ("P", "PA"):
             self.c("refused_new_orders")
             allowed = {"status", "status_log", "complete", "violation_msg"}
             bad = [f for f in d if f not in allowed]
@@ -229,6 +233,9 @@ def alphabet(dt, rich):
     A.append(L.tick(dt, "SUS", [tx([REQ["good"], ["C", 0, None]])]))
     # the strategy's own code raises inside the `with` block after requests were accepted: the transaction still ends
     A.append(L.tick(dt, "Q", [tx([REQ["good"], ["P", dict(T["PBn"], trade=0, live_only=False)]])]))  # two legs of one trade in one batch
+    # a new order refused while the market is suspended is offered again once the cause has gone (and while it has not)
+    A.append(L.tick(dt, "OPN", [["PA", 0, 0]]))
+    A.append(L.tick(dt, "Q", [["PA", 0, 0]]))
     A.append(L.tick(dt, "Q", [["TXR", [list(REQ["good"])]]]))
     A.append(L.tick(dt, "Q", [["TXR", [["C", 0, None], list(REQ["good2"])]]]))
     return A
@@ -579,7 +586,7 @@ def run(tier):
     rep.transitions += len(pj) + len(bj)
     rep.traces += len(pj) + len(bj)
     rep.states += len(pj) + len(bj)
-    rep.need("refused_requests", "accepted_requests", "packages", "forced_accepted", "refused_new_orders", "refused_inflight_or_live", "packaging_cases", "chunked_cases", "multi_version_cases")
+    rep.need("refused_requests", "accepted_requests", "accepted_after_refusal", "packages", "forced_accepted", "refused_new_orders", "refused_inflight_or_live", "packaging_cases", "chunked_cases", "multi_version_cases")
     rj = []
     names = list(_BDQ_REQ)
     for st0 in ("nobet", "executable", "complete"):
